@@ -3,6 +3,7 @@ package routing
 // Replay of Core.tla behaviours on a real routing.Core (properties C05 C06 C13 C14 C15 C18, gates of C19 / C20).
 
 import (
+	"bufio"
 	"bytes"
 	"encoding/json"
 	"fmt"
@@ -468,6 +469,29 @@ func (r *vcReplayer) collectReports(sends []vcSent) (out []vcReportExp, ok bool)
 				cands = append(cands, b)
 			}
 		}
+	}
+	// a report addressed to an endpoint of this node that no agent registered is stored without the pending flag: where the catalogue
+	// has such a report-to, every stored part is looked at (the store keeps one file per part below its directory)
+	scanAll := false
+	for _, a := range r.w.cat {
+		if a.RptNoAgent {
+			scanAll = true
+		}
+	}
+	if scanAll {
+		_ = filepath.Walk(r.w.dir, func(path string, info os.FileInfo, err error) error {
+			if err != nil || info.IsDir() || info.Size() == 0 || info.Size() > 1<<20 {
+				return nil
+			}
+			if f, fErr := os.Open(path); fErr == nil {
+				var b bpv7.Bundle
+				if b.UnmarshalCbor(bufio.NewReader(f)) == nil && b.IsAdministrativeRecord() {
+					cands = append(cands, b)
+				}
+				_ = f.Close()
+			}
+			return nil
+		})
 	}
 	for _, b := range cands {
 		if strings.HasPrefix(b.PrimaryBlock.SourceNode.String(), "dtn://src-") { // an administrative record from the catalogue, not ours
